@@ -149,6 +149,11 @@ def fn_tasks(N, p, cx):
         lambda r: [("pseudo-spectrum", r[0], ZERO), ("singular values", r[1], HALF)], {"method": "music"})
     add("eigen.ev", lambda I, d: I.call_qual("spectrum.eigenfre.eigen", data(d, N, cx), p + 1, 1, "ev", None, 4 * p + 4),
         lambda r: [("pseudo-spectrum", r[0], HALF), ("singular values", r[1], HALF)], {"method": "ev"})
+    # order selection inside eigen (NSIG=None): the selected dimension must not depend on the amplitude, i.e. every entry of the
+    # criterion vector carries the same additive offset in log|c| (argmin over mixed offsets is a degree error)
+    for crit in ("aic", "mdl"):
+        add("eigen.music+" + crit, lambda I, d, crit=crit: I.call_qual("spectrum.eigenfre.eigen", data(d, N, cx), p + 2, None, "music", None, 4 * p + 4, crit),
+            lambda r: [("pseudo-spectrum", r[0], ZERO), ("singular values", r[1], HALF)], {"method": "music", "criteria": crit})
     add("speriodogram", lambda I, d: I.call_qual("spectrum.periodogram.speriodogram", data(d, N, cx), 2 * N, False, F(1), True, "hann"),
         lambda r: [("psd", r, PWR)])
     add("CORRELOGRAMPSD", lambda I, d: I.call_qual("spectrum.correlog.CORRELOGRAMPSD", data(d, N, cx), None, p, "hamming", "unbiased", 2 * N),
